@@ -166,19 +166,34 @@ def parseIn1 (t : String) : Option (List In1) :=
     | 'R' :: cs => (hex? (String.ofList ('x' :: cs))).map (fun b => b.map In1.byte)
     | _ => none
 
+/-- the handler races an adapter call against frame processing in a randomly ordered `select!`: when
+    client input that is already buffered ends the connection in that very poll, whether the
+    adapter call had been *started* is scheduler-dependent and without consequence.  Both sides drop
+    a trailing routing call that is followed at once by a client-caused error. -/
+def dropRacyCall (evs : List String) (res : String) : List String :=
+  if res.startsWith "err:" && res != "err:adapter" && res != "err:no-target" then
+    match evs.reverse with
+    | last :: rest =>
+      if last == "call:discover" || last.startsWith "call:filter:" || last.startsWith "call:select:" then rest.reverse else evs
+    | [] => evs
+  else evs
+
+def render (outs : List Out) : String :=
+  let res := resultStr outs
+  let evs := dropRacyCall (outs.filterMap outStr) res
+  (if evs.isEmpty then "" else ";".intercalate evs ++ " ") ++ "=> " ++ res
+
 /-- `conn.run cfg … | env … | in …` → events `;`-joined, then ` => result` -/
 def handle : List String → Option String
   | "conn.run" :: rest => do
     let (C, E, ins) ← build rest
     let r := run C E {} ins
-    let evs := r.2.filterMap outStr
-    some ((if evs.isEmpty then "" else ";".intercalate evs ++ " ") ++ "=> " ++ resultStr r.2)
+    some (render r.2)
   | "conn1.run" :: rest => do
     let (C, E, ins) ← buildEnv rest
     let ins1 := (← ins.mapM parseIn1).flatten
     let r := run1 C E {} ins1
-    let evs := r.2.filterMap outStr
-    some ((if evs.isEmpty then "" else ";".intercalate evs ++ " ") ++ "=> " ++ resultStr r.2)
+    some (render r.2)
   | _ => none
 
 end Passage.Driver.Conn
